@@ -512,6 +512,7 @@ impl<A: Spec, B: Spec, C: Spec> Elem for (A, B, C) {}
 impl<T: Spec, const M: usize> Elem for [T; M] {}
 macro_rules! compact_elem { ($($t:ty),*) => { $( impl Elem for Compact<$t> {} )* } }
 compact_elem!(u8, u16, u32, u64, u128);
+nonprim_elem!(NonZeroU8, NonZeroU16, NonZeroU32, NonZeroI8, NonZeroI64);
 
 /// sequence body with a known element count
 pub fn enc_seq<'a, T: Spec + 'a, I: Iterator<Item = &'a T>, const N: usize>(
